@@ -219,6 +219,9 @@ def judge(setup, obs, with_reaper, expect_reaper_done=True):
         if partial:
             return ("poll %d: num_results=%d counted the partly written file(s) %r under the schedule %s" % (
                 k, n, partial, compact(obs["log"])), "poller_partial")
+        if n > complete:
+            return ("poll %d: num_results=%d although only %d complete result file(s) existed at that instant (schedule %s)" % (
+                k, n, complete, compact(obs["log"])), "poller_overcount")
     for name, o in obs.items():
         if isinstance(o, dict) and name not in ("reaper", "poller") and "exc" in o and o["exc"] is not None:
             return ("grower %s raised %s: %s" % (name, type(o["exc"]).__name__, str(o["exc"])[:160]), "grower_raised")
